@@ -83,6 +83,12 @@ type xOp struct {
 	First string   `json:"first,omitempty"` // first URL (symbolic ports 1001 https, 1002 https, 1003 http)
 	Locs  []string `json:"locs,omitempty"`  // redirect targets, hop by hop
 	Tag   string   `json:"tag,omitempty"`
+	// src: one option set through up to three sources (config file, environment, command line); Load (and for
+	// strictmode optionally Configure with a plain-http public URL) decides
+	Key       string      `json:"key,omitempty"`       // strictmode | url | didmethods
+	FileVal   *string     `json:"fileval,omitempty"`   // the value as written into nuts.yaml (YAML text)
+	Env       [][2]string `json:"env,omitempty"`       // environment variables set in this order (name, raw value)
+	Configure bool        `json:"configure,omitempty"` // strictmode: continue with System.Configure
 	// cap: the server answering last sends a body of this many bytes (Content-Length, or chunked)
 	Body    *int `json:"body,omitempty"`
 	Chunked bool `json:"chunked,omitempty"`
@@ -240,6 +246,92 @@ func xLoad(op xOp, dir string) (*core.System, error) {
 		return system, fmt.Errorf("flag-parse: %w", err)
 	}
 	return system, system.Load(flags)
+}
+
+// xSrc: where an option comes from. The REAL loader (file < environment < command line) on a real nuts.yaml, real
+// environment variables and a real command line
+func xSrc(op xOp, sock **xSock) string {
+	dir, err := os.MkdirTemp(os.Getenv("VERIF_OUT"), "src")
+	if err != nil {
+		panic(err)
+	}
+	defer os.RemoveAll(dir)
+	base := xOp{Op: "sys", Strict: true, StrictUnset: true, URL: "http://nuts.nl", TLS: true, Methods: []string{"web", "nuts"}, Crypto: "fs", SQL: true, Irma: "pbdf"}
+	var yaml string
+	if op.Configure {
+		yaml = xConfigYAML(base, dir)
+	} else {
+		yaml = fmt.Sprintf("datadir: %s\nverbosity: panic\n", dir)
+	}
+	if op.FileVal != nil {
+		yaml += op.Key + ": " + *op.FileVal + "\n"
+	}
+	f := filepath.Join(dir, "nuts.yaml")
+	if err := os.WriteFile(f, []byte(yaml), 0o644); err != nil {
+		panic(err)
+	}
+	for _, nv := range op.Env {
+		os.Unsetenv(nv[0])
+	}
+	for _, nv := range op.Env {
+		os.Setenv(nv[0], nv[1])
+	}
+	defer func() {
+		for _, nv := range op.Env {
+			os.Unsetenv(nv[0])
+		}
+	}()
+	if op.Configure {
+		if *sock == nil {
+			*sock = xNewSock()
+		}
+		restore := (*sock).install()
+		defer restore()
+		oldStrict := client.StrictMode
+		client.StrictMode = false
+		defer func() { client.StrictMode = oldStrict }()
+	}
+	system := CreateSystem(func() {})
+	flags := serverConfigFlags()
+	args := []string{"--configfile", f}
+	if op.Cli != "" {
+		args = append(args, op.Cli)
+	}
+	if err := flags.Parse(args); err != nil {
+		return "src refuse:flag-parse"
+	}
+	if err := system.Load(flags); err != nil {
+		switch {
+		case strings.Contains(err.Error(), "decoding"):
+			return "src refuse:unmarshal"
+		case strings.Contains(err.Error(), "have moved to tls"):
+			return "src refuse:moved-keys"
+		}
+		return "src refuse:other:" + err.Error()
+	}
+	val := ""
+	switch op.Key {
+	case "strictmode":
+		val = strconv.FormatBool(system.Config.Strictmode)
+	case "url":
+		val = xhx(system.Config.URL)
+	case "didmethods":
+		hs := make([]string, len(system.Config.DIDMethods))
+		for i, m := range system.Config.DIDMethods {
+			hs[i] = xhx(m)
+		}
+		val = "[" + strings.Join(hs, "|") + "]"
+	}
+	line := "src " + op.Key + "=" + val
+	if op.Configure {
+		defer xShutdown(system)
+		if err := system.Configure(); err != nil {
+			line += " start=refuse:" + xStartErr(err)
+		} else {
+			line += " start=ok"
+		}
+	}
+	return line
 }
 
 // ---------- outbound client against real local servers
@@ -428,6 +520,8 @@ func xExec(t *testing.T, op xOp, sock **xSock) (line string) {
 			return "flags refuse:cli-secret"
 		}
 		return "flags other:" + err.Error()
+	case "src":
+		return xSrc(op, sock)
 	case "load", "sys":
 		dir, err := os.MkdirTemp(os.Getenv("VERIF_OUT"), "node")
 		if err != nil {
@@ -921,6 +1015,79 @@ func xGenerate(seed int64, thorough bool) []xOp {
 			}
 		}
 	}
+	ops = append(ops, xGenSources(r, thorough)...)
+	return ops
+}
+
+// 7. where the options come from (deepening round): every combination of file / environment / command line for strictmode,
+// with hostile environment spellings and values; url and didmethods through the same loader
+func xGenSources(r *rand.Rand, thorough bool) []xOp {
+	var ops []xOp
+	sp := func(s string) *string { return &s }
+	fileVals := []*string{nil, sp("true"), sp("false")}
+	cliVals := []string{"", "--strictmode", "--strictmode=true", "--strictmode=false"}
+	envNames := []string{"NUTS_STRICTMODE", "NUTS_strictmode", "NUTS_StrictMode", "nuts_strictmode", "NUTSSTRICTMODE", "XNUTS_STRICTMODE", "NUTS__STRICTMODE", "NUTS_STRICT_MODE", "STRICTMODE"}
+	envVals := []string{"true", "false", "TRUE", "FALSE", "True", "False", "1", "0", "t", "f", "T", "F", " false ", "false ", "\tfalse", " true", "", " ", "yes", "no", "off", "fALSE", "false,false", "false,", "true,false", "false\\,", "0x0", "00"}
+	n := 0
+	for _, fv := range fileVals {
+		for _, cv := range cliVals {
+			// no environment, then a few environments
+			envs := [][][2]string{nil}
+			k := 6
+			if thorough {
+				k = 40
+			}
+			for i := 0; i < k; i++ {
+				var e [][2]string
+				name := envNames[0]
+				if r.Intn(3) == 0 {
+					name = envNames[r.Intn(len(envNames))]
+				}
+				e = append(e, [2]string{name, envVals[r.Intn(len(envVals))]})
+				if r.Intn(4) == 0 {
+					e = append(e, [2]string{envNames[r.Intn(3)], envVals[r.Intn(4)]})
+					if e[1][0] == e[0][0] {
+						e = e[:1]
+					}
+				}
+				envs = append(envs, e)
+			}
+			for _, e := range envs {
+				n++
+				ops = append(ops, xOp{Op: "src", Key: "strictmode", FileVal: fv, Env: e, Cli: cv, Configure: n%5 == 0, Tag: "sources"})
+			}
+		}
+	}
+	// every environment value once, alone (and every name once with "false")
+	for _, v := range envVals {
+		ops = append(ops, xOp{Op: "src", Key: "strictmode", Env: [][2]string{{"NUTS_STRICTMODE", v}}, Configure: v == " false " || v == "yes", Tag: "sources"})
+	}
+	for _, nm := range envNames {
+		ops = append(ops, xOp{Op: "src", Key: "strictmode", Env: [][2]string{{nm, "false"}}, Configure: true, Tag: "sources"})
+	}
+	// url and didmethods: precedence, trimming, list splitting and escaping
+	urlEnv := []string{"https://env.nl", " https://env.nl ", "https://env.nl,https://b.nl", "https://env.nl\\,x", "", "https://env.nl\\"}
+	for i, ev := range urlEnv {
+		for j, fv := range []*string{nil, sp("\"https://file.nl\"")} {
+			cli := ""
+			if (i+j)%3 == 2 {
+				cli = "--url=https://cli.nl"
+			}
+			ops = append(ops, xOp{Op: "src", Key: "url", FileVal: fv, Env: [][2]string{{"NUTS_URL", ev}}, Cli: cli, Tag: "sources"})
+		}
+	}
+	ops = append(ops, xOp{Op: "src", Key: "url", FileVal: sp("\"https://file.nl\""), Tag: "sources"}, xOp{Op: "src", Key: "url", FileVal: sp("\"https://file.nl\""), Cli: "--url=https://cli.nl", Tag: "sources"})
+	dmEnv := []string{"web", "web,nuts", " web , nuts ", "web\\,nuts", "web,,nuts", ",", "", "nuts\\,web,x", "a\\\\,b", "web, "}
+	for i, ev := range dmEnv {
+		for j, fv := range []*string{nil, sp("[filea, fileb]")} {
+			cli := ""
+			if (i+j)%4 == 3 {
+				cli = "--didmethods=clia,clib"
+			}
+			ops = append(ops, xOp{Op: "src", Key: "didmethods", FileVal: fv, Env: [][2]string{{"NUTS_DIDMETHODS", ev}}, Cli: cli, Tag: "sources"})
+		}
+	}
+	ops = append(ops, xOp{Op: "src", Key: "didmethods", FileVal: sp("[filea, fileb]"), Tag: "sources"}, xOp{Op: "src", Key: "didmethods", FileVal: sp("[filea]"), Cli: "--didmethods=clia", Tag: "sources"})
 	return ops
 }
 
